@@ -241,13 +241,16 @@ C11_PoolAccounting ==
      \A d \in Dels(node[p]) :
         node[p].pools[d].bal = hist.locked[p][d] - hist.slashed[p][d] - hist.unstaked[p][d]
 C11_LockMovesValue ==
-  [][ \A d \in Client, p \in Provider, v \in 0..MaxStake :
-        (last'.kind = "lock" /\ last'.caller = d /\ last'.p = p /\ last'.v = v) =>
-           IF last'.ok
+  [][ last'.kind = "lock" =>
+        LET d == last'.caller
+            p == last'.p
+            v == last'.v
+        IN IF last'.ok
              THEN /\ cbal'[d] = cbal[d] - v /\ wallet' = wallet + v
                   /\ node'[p].pools[d].bal = (IF d \in Dels(node[p]) THEN node[p].pools[d].bal ELSE 0) + v
-                  /\ node'[p].pools[d].bal <= MaxStake /\ v >= MinLock
+                  /\ node'[p].pools[d].bal <= MaxStake /\ v >= MinLock /\ v > 0
                   /\ Cardinality(Dels(node'[p])) <= node[p].maxDel
+                  /\ \A e \in Dels(node[p]) \ {d} : node'[p].pools[e] = node[p].pools[e]
              ELSE UNCHANGED <<node, cbal, wallet>> ]_vars
 C11_OnlyOwnerUnlocks ==
   [][ \A p \in Provider, d \in Client :
